@@ -12,7 +12,7 @@ from simkit import gen, launch, pipe
 from simkit.kernel import EventLog, Forks, RunStats, Scratch, Violation, digest, f64_bits, sub_rng
 
 SPEC = {
-    "C07": dict(engine="distsim", level="fault_enumeration", runs=dict(quick=700, thorough=5000), chunk=5,
+    "C07": dict(engine="distsim", level="fault_enumeration", runs=dict(quick=700, thorough=3000), chunk=5,
                 rule="per run: n posterior samples (0-14) in 1-3 holder files, a chunk count from 1 to more than the number of "
                      "pairs, one calculate_distance_matrix process per chunk, a seeded arrival order at the combining stage with "
                      "chunk.duplicate / chunk.lose faults (thorough: ALL single duplications and ALL single losses of the sampled "
